@@ -35,14 +35,22 @@ RULE = ('one case per real estimation run (model, table, bound configuration, st
         'distinct = distinct (model, table, bounds, start, algorithm variant, entry point[, resample]) keys. '
         'Rejected tables (separation / ill conditioning) are counted, never sent to the library.')
 ASSUMPTIONS = [
-    'concave problems only: logit with linear-in-parameter utilities (2-3 alternatives, all available) and normal '
-    'regression with fixed sigma; 1-3 free parameters; tables of 4-6 rows from fixed value alphabets (VERIF_SEED '
-    'selects one of 5 alphabets)',
-    'numerical tolerances: recomputation/derivative identities rel 1e-9; at reported convergence the maximum value '
-    'within 1e-6*max(1,|LL|) of the reference optimum and free-direction gradient <= 1e-2*max(1,|LL|) (DESIGN, '
-    'calibrated on the unchanged tree against the algorithms own stopping rules); sign condition on blocked directions',
-    'algorithms that ignore bounds (LS-*, TR-*) are compared with the unconstrained reference optimum only',
-    'the external optimisers (biogeme_optimization, scipy L-BFGS-B) and the engine arithmetic are exercised, not repaired',
+    'concave problems only: logit with linear-in-parameter utilities (2-3 alternatives, all available; also as '
+    'log(PanelLikelihoodTrajectory(logit)) in the panel bootstrap part) and normal regression with fixed sigma; 1-3 free '
+    'parameters, optional fixed parameter; tables of 3-6 rows from fixed value alphabets (VERIF_SEED selects one of 5 '
+    'alphabets of attribute values, y grid, alternative ids, parameter names, fixed values)',
+    'tolerances: recomputation / derivative identities rel 1e-9 (1e-11 against the library itself); feasibility 1e-10 rel '
+    '+ 1e-12 abs; at reported convergence value within max(1e-6*max(1,|LL|), K^2*max|(-H)^-1|*(tau*S)^2) of the reference '
+    'optimum and free-direction gradient <= max(1e-2*max(1,|LL|), 1.5*tau*S), tau = configured relative-gradient tolerance, '
+    'S = max(1,|LL(start)|,|LL*|) (the algorithms own stopping rule; DESIGN values are the floor); sign condition on blocked '
+    'directions; tables whose reference optimum has |x|>8 or max|(-H)^-1|>60 are rejected (counted)',
+    'algorithms that ignore bounds (LS-*, TR-*) are compared with the unconstrained reference optimum only; leaving the '
+    'box is counted as documented behaviour',
+    'clause no-convergence-on-a-small-concave-problem (biogeme_optimization algorithms, no iteration cap) is a calibrated '
+    'expectation, not part of the statement; scipy is exempt (L-BFGS-B stalls exist and are reported unconverged after the fix)',
+    'the external optimisers (biogeme_optimization, scipy L-BFGS-B) and the engine arithmetic are exercised, not repaired; '
+    'quick_estimate() does not write the estimates back to the formulas and a second estimate() on the same object '
+    'restarts from the original start: both observed and counted, not demanded',
 ]
 ANCHOR_FILES = ['src/biogeme/biogeme.py', 'src/biogeme/optimization.py', 'src/biogeme/negative_likelihood.py',
                 'src/biogeme/results.py']
